@@ -122,7 +122,7 @@ func cmdCheck(args []string) int {
 		seed, _ = strconv.Atoi(s)
 	}
 	start := time.Now()
-	timeoutS := 20
+	timeoutS := 30
 	if *tier == "thorough" {
 		timeoutS = 120
 	}
